@@ -4,6 +4,7 @@ package odt
 import (
 	"archive/zip"
 	"encoding/xml"
+	"errors"
 	"fmt"
 	"io"
 	"strconv"
@@ -750,6 +751,12 @@ func (r *Reader) parseContent() error {
 }
 
 // parseBodyElements parses body elements maintaining document order.
+//
+// An element that cannot be decoded is left out. Not so a paragraph nested beyond
+// maxInlineDepth: encoding/xml keeps the end-of-input mark it set for the
+// paragraph's UnmarshalXML, so the token loop would end right there and the rest
+// of the document would be lost without a word. That error is returned, as the
+// DOCX reader does.
 func (r *Reader) parseBodyElements(data []byte) error {
 	decoder := xml.NewDecoder(strings.NewReader(string(data)))
 	var inBody bool
@@ -779,6 +786,9 @@ func (r *Reader) parseBodyElements(data []byte) error {
 				// Paragraph
 				var para paragraphXML
 				if err := decoder.DecodeElement(&para, &t); err != nil {
+					if errors.Is(err, errInlineTooDeep) {
+						return err
+					}
 					continue
 				}
 				parsed := r.processParagraph(para)
@@ -792,6 +802,9 @@ func (r *Reader) parseBodyElements(data []byte) error {
 				// Heading
 				var heading headingXML
 				if err := decoder.DecodeElement(&heading, &t); err != nil {
+					if errors.Is(err, errInlineTooDeep) {
+						return err
+					}
 					continue
 				}
 				parsed := r.processHeading(heading)
@@ -812,6 +825,9 @@ func (r *Reader) parseBodyElements(data []byte) error {
 					}
 				}
 				if err := decoder.DecodeElement(&list, &t); err != nil {
+					if errors.Is(err, errInlineTooDeep) {
+						return err
+					}
 					continue
 				}
 				list.StyleName = currentListStyle
@@ -836,6 +852,9 @@ func (r *Reader) parseBodyElements(data []byte) error {
 				// Table
 				var tbl tableXML
 				if err := decoder.DecodeElement(&tbl, &t); err != nil {
+					if errors.Is(err, errInlineTooDeep) {
+						return err
+					}
 					continue
 				}
 				parsed := r.tableParser.ParseTable(tbl)
